@@ -1,3 +1,4 @@
+use std::collections::HashSet;
 use std::sync::Arc;
 use std::time::Instant;
 
@@ -38,8 +39,23 @@ impl DeltaRefresher {
 
         let initial_high_water = sink.high_water_mark();
         let has_filtering = timestamp_idx.is_some() && event_idx.is_some();
-        let watermark_template =
+        let mut watermark_template =
             WatermarkDeduplicator::new(initial_high_water, timestamp_idx, event_idx);
+        if let (Some(ts_idx), Some(id_idx)) = (timestamp_idx, event_idx) {
+            // Frame metadata tracks the core `timestamp` column only.
+            let prune_by_meta = entry
+                .schema
+                .get(ts_idx)
+                .is_some_and(|column| column.name == "timestamp");
+            let stored_ids = Self::stored_ids_since(
+                sink.store(),
+                initial_high_water.timestamp,
+                ts_idx,
+                id_idx,
+                prune_by_meta,
+            )?;
+            watermark_template = watermark_template.with_stored_ids(stored_ids);
+        }
 
         if tracing::enabled!(tracing::Level::DEBUG) {
             tracing::debug!(
@@ -58,6 +74,40 @@ impl DeltaRefresher {
             has_filtering,
             initial_high_water,
         })
+    }
+
+    /// Ids of the stored rows the delta query (`since` = watermark second, inclusive) can
+    /// return again.
+    fn stored_ids_since(
+        store: &MaterializedStore,
+        since: u64,
+        timestamp_idx: usize,
+        event_idx: usize,
+        prune_by_meta: bool,
+    ) -> ShowResult<HashSet<u64>> {
+        let mut ids = HashSet::new();
+        for meta in store.frames() {
+            if prune_by_meta && meta.max_timestamp < since {
+                continue;
+            }
+            let batch = store
+                .read_frame(meta)
+                .map_err(|err| ShowError::new(format!("Failed to read stored frame: {err}")))?;
+            let timestamps = batch
+                .column(timestamp_idx)
+                .map_err(|err| ShowError::new(format!("Stored frame misses timestamp: {err}")))?;
+            let events = batch
+                .column(event_idx)
+                .map_err(|err| ShowError::new(format!("Stored frame misses event_id: {err}")))?;
+            for (ts, event) in timestamps.iter().zip(events.iter()) {
+                if let (Some(ts), Some(event)) = (ts.as_u64(), event.as_u64()) {
+                    if ts >= since {
+                        ids.insert(event);
+                    }
+                }
+            }
+        }
+        Ok(ids)
     }
 
     pub fn initial_high_water(&self) -> HighWaterMark {
